@@ -2,7 +2,256 @@
   C16 — gap-degree analysis agrees with the set-based definition (see tools/agent_briefs/WF.md)
 -/
 import TT.Spec.Nav
+import TT.Lemmas.Sort
+import TT.Lemmas.Nav
+import TT.Lemmas.WF
 namespace TT.Props.C16
 open TT TT.Tree TT.Spec
+
+/-- strictly increasing list of naturals -/
+def StrictInc (l : List Nat) : Prop := l.Pairwise (· < ·)
+
+/-- consecutive run a, a+1, a+2, ... -/
+def Run : List Nat → Prop
+  | [] => True
+  | [_] => True
+  | a :: b :: r => b = a + 1 ∧ Run (b :: r)
+
+/-! ### shape of `blocksOf` -/
+
+/-- the first block of a non-empty list starts with its first element -/
+theorem blocksOf_cons : ∀ (a : Nat) (l : List Nat), ∃ blk blks, blocksOf (a :: l) = (a :: blk) :: blks
+  | a, [] => ⟨[], [], rfl⟩
+  | a, b :: rest => by
+    obtain ⟨blk, blks, h⟩ := blocksOf_cons b rest
+    simp only [blocksOf, h]
+    split
+    · exact ⟨[], _, rfl⟩
+    · exact ⟨_, _, rfl⟩
+
+/-- one step of `blocksOf`, given the blocks of the tail -/
+theorem blocksOf_step (a b : Nat) (rest blk : List Nat) (blks : List (List Nat))
+    (h : blocksOf (b :: rest) = blk :: blks) :
+    blocksOf (a :: b :: rest) = if a + 1 < b then [a] :: blk :: blks else (a :: blk) :: blks := by
+  simp only [blocksOf, h]
+
+theorem blocksOf_flatten (l : List Nat) : (blocksOf l).flatten = l :=
+  match l with
+  | [] => rfl
+  | [a] => rfl
+  | a :: b :: rest => by
+    have ih := blocksOf_flatten (b :: rest)
+    obtain ⟨blk, blks, h⟩ := blocksOf_cons b rest
+    rw [blocksOf_step a b rest _ _ h]
+    rw [h] at ih
+    split
+    · simp only [List.flatten_cons] at ih ⊢
+      rw [ih]; rfl
+    · simp only [List.flatten_cons, List.cons_append] at ih ⊢
+      rw [ih]
+
+theorem blocksOf_ne_nil (l : List Nat) : ∀ b ∈ blocksOf l, b ≠ [] :=
+  match l with
+  | [] => by simp [blocksOf]
+  | [a] => by simp [blocksOf]
+  | a :: b :: rest => by
+    have ih := blocksOf_ne_nil (b :: rest)
+    obtain ⟨blk, blks, h⟩ := blocksOf_cons b rest
+    rw [blocksOf_step a b rest _ _ h]
+    rw [h] at ih
+    intro c hc
+    split at hc
+    · rcases List.mem_cons.1 hc with rfl | hc
+      · simp
+      · exact ih c hc
+    · rcases List.mem_cons.1 hc with rfl | hc
+      · simp
+      · exact ih c (List.mem_cons_of_mem _ hc)
+
+theorem blocksOf_runs (l : List Nat) (h : StrictInc l) : ∀ b ∈ blocksOf l, Run b :=
+  match l, h with
+  | [], _ => by simp [blocksOf]
+  | [a], _ => by simp [blocksOf, Run]
+  | a :: b :: rest, hs => by
+    have hs' := List.pairwise_cons.1 hs
+    have ih := blocksOf_runs (b :: rest) hs'.2
+    have hab : a < b := hs'.1 b List.mem_cons_self
+    obtain ⟨blk, blks, h⟩ := blocksOf_cons b rest
+    rw [blocksOf_step a b rest _ _ h]
+    rw [h] at ih
+    intro c hc
+    split at hc
+    · rcases List.mem_cons.1 hc with rfl | hc
+      · simp [Run]
+      · exact ih c hc
+    · rename_i hgap
+      rcases List.mem_cons.1 hc with rfl | hc
+      · exact ⟨by omega, ih _ List.mem_cons_self⟩
+      · exact ih c (List.mem_cons_of_mem _ hc)
+
+/-- the gap statement of maximality (holds for every list) -/
+theorem blocksOf_gap : ∀ (l : List Nat), ∀ i, i + 1 < (blocksOf l).length →
+    ∃ x y, ((blocksOf l)[i]?).bind List.getLast? = some x ∧
+      ((blocksOf l)[i+1]?).bind List.head? = some y ∧ x + 1 < y
+  | [] => by simp [blocksOf]
+  | [a] => by simp [blocksOf]
+  | a :: b :: rest => by
+    have ih := blocksOf_gap (b :: rest)
+    obtain ⟨blk, blks, h⟩ := blocksOf_cons b rest
+    rw [blocksOf_step a b rest _ _ h]
+    rw [h] at ih
+    intro i hi
+    split
+    · rename_i hgap
+      cases i with
+      | zero => exact ⟨a, b, by simp, by simp, hgap⟩
+      | succ i =>
+        rw [if_pos hgap] at hi
+        obtain ⟨x, y, h1, h2, h3⟩ := ih i (by simpa using hi)
+        exact ⟨x, y, by simpa using h1, by simpa using h2, h3⟩
+    · rename_i hgap
+      rw [if_neg hgap] at hi
+      cases i with
+      | zero =>
+        obtain ⟨x, y, h1, h2, h3⟩ := ih 0 (by simpa using hi)
+        refine ⟨x, y, ?_, by simpa using h2, h3⟩
+        simpa [List.getLast?_cons_cons] using h1
+      | succ i =>
+        obtain ⟨x, y, h1, h2, h3⟩ := ih (i + 1) (by simpa using hi)
+        exact ⟨x, y, by simpa using h1, by simpa using h2, h3⟩
+
+set_option linter.unusedVariables false in
+/-- maximality: between two consecutive blocks there is a gap -/
+theorem blocksOf_maximal (l : List Nat) (h : StrictInc l) :
+    (blocksOf l).Pairwise (fun b c => True) ∧
+    ∀ i, i + 1 < (blocksOf l).length →
+      ∃ x y, ((blocksOf l)[i]?).bind List.getLast? = some x ∧ ((blocksOf l)[i+1]?).bind List.head? = some y ∧ x + 1 < y :=
+  ⟨List.pairwise_of_forall (fun _ _ => trivial), blocksOf_gap l⟩
+
+theorem blocksOf_length_pos (a : Nat) (l : List Nat) : 0 < (blocksOf (a :: l)).length := by
+  obtain ⟨blk, blks, h⟩ := blocksOf_cons a l
+  rw [h]; simp
+
+theorem gapCount_eq_blocks (l : List Nat) : gapCount l = (blocksOf l).length - 1 :=
+  match l with
+  | [] => rfl
+  | [a] => rfl
+  | a :: b :: rest => by
+    have ih := gapCount_eq_blocks (b :: rest)
+    have hpos := blocksOf_length_pos b rest
+    obtain ⟨blk, blks, h⟩ := blocksOf_cons b rest
+    rw [blocksOf_step a b rest _ _ h]
+    rw [h] at ih hpos
+    simp only [gapCount, ih]
+    split <;> simp only [List.length_cons] at * <;> omega
+
+theorem gapDegreeNode_eq_blocks (f : Fields) (ks : List Tree) :
+    gapDegreeNode (node f ks) = (blocks (node f ks)).length - 1 := by
+  simp only [gapDegreeNode, blocks]
+  exact gapCount_eq_blocks _
+
+theorem blocks_partition (t : Tree) : (blocks t).flatten = yield t :=
+  blocksOf_flatten _
+
+/-- the sorted token numbers of a tree without duplicate numbers are strictly increasing -/
+theorem yield_strictInc (t : Tree) (h : t.leafNums.Nodup) : StrictInc (yield t) := by
+  have hs := TT.Lemmas.WF.yield_sorted t
+  have hn : (yield t).Nodup := (TT.Lemmas.WF.yield_perm t).symm.nodup h
+  exact (hs.and hn).imp (fun ⟨h1, h2⟩ => Nat.lt_of_le_of_ne h1 h2)
+
+theorem blocks_runs (t : Tree) (h : t.leafNums.Nodup) : ∀ b ∈ blocks t, Run b :=
+  blocksOf_runs _ (yield_strictInc t h)
+
+/-! ### gap degree = maximum over the nodes -/
+
+theorem foldl_max_ge : ∀ (l : List Nat) (init : Nat),
+    init ≤ l.foldl max init ∧ ∀ x ∈ l, x ≤ l.foldl max init
+  | [], init => by simp
+  | a :: l, init => by
+    have ih := foldl_max_ge l (max init a)
+    simp only [List.foldl_cons]
+    refine ⟨by omega, ?_⟩
+    intro x hx
+    rcases List.mem_cons.1 hx with rfl | hx
+    · omega
+    · exact ih.2 x hx
+
+theorem foldl_max_mem : ∀ (l : List Nat) (init : Nat),
+    l.foldl max init = init ∨ l.foldl max init ∈ l
+  | [], init => by simp
+  | a :: l, init => by
+    simp only [List.foldl_cons]
+    rcases foldl_max_mem l (max init a) with h | h
+    · rw [h]
+      rcases Nat.le_total init a with h' | h'
+      · right; rw [Nat.max_eq_right h']; exact List.mem_cons_self
+      · left; exact Nat.max_eq_left h'
+    · right; exact List.mem_cons_of_mem _ h
+
+theorem self_mem_preorder (t : Tree) : t ∈ preorder t := by
+  cases t <;> simp [preorder]
+
+theorem gapDegree_ge (t : Tree) : ∀ s ∈ preorder t, gapDegreeNode s ≤ gapDegree t := by
+  intro s hs
+  exact (foldl_max_ge _ 0).2 _ (List.mem_map_of_mem hs)
+
+theorem gapDegree_attained (t : Tree) : ∃ s ∈ preorder t, gapDegreeNode s = gapDegree t := by
+  rcases foldl_max_mem ((preorder t).map gapDegreeNode) 0 with h | h
+  · refine ⟨t, self_mem_preorder t, ?_⟩
+    have := gapDegree_ge t t (self_mem_preorder t)
+    unfold gapDegree at this ⊢
+    omega
+  · obtain ⟨s, hs, heq⟩ := List.mem_map.1 h
+    exact ⟨s, hs, heq⟩
+
+/-- a node is continuous iff it has exactly one block -/
+theorem gapDegreeNode_zero_iff (f : Fields) (ks : List Tree) (h : (node f ks).leafNums ≠ []) :
+    gapDegreeNode (node f ks) = 0 ↔ (blocks (node f ks)).length = 1 := by
+  rw [gapDegreeNode_eq_blocks]
+  have hy := TT.Lemmas.WF.yield_ne_nil _ h
+  unfold blocks
+  cases hc : yield (node f ks) with
+  | nil => exact absurd hc hy
+  | cons a l =>
+    have := blocksOf_length_pos a l
+    omega
+
+/-! ### a concrete discontinuous tree: `(S (VP 1 3 4) 2 (NP 6 7))` -/
+
+/-- `(S (VP w1 w3 w4) w2 (NP w7 w6))`, the VP has the gap `2`, the root the gap `5` -/
+def exTree : Tree :=
+  node { label := "S".toList }
+    [node { label := "VP".toList } [leaf 1 {}, leaf 4 {}, leaf 3 {}],
+     leaf 2 {},
+     node { label := "NP".toList } [leaf 7 {}, leaf 6 {}]]
+
+def exVP : Tree := node { label := "VP".toList } [leaf 1 {}, leaf 4 {}, leaf 3 {}]
+
+example : StrictInc [1, 2, 4, 5, 7] := by unfold StrictInc; decide
+example : blocksOf [1, 2, 4, 5, 7] = [[1, 2], [4, 5], [7]] := by decide
+example : (blocksOf [1, 2, 4, 5, 7]).flatten = [1, 2, 4, 5, 7] := blocksOf_flatten _
+example : ∀ b ∈ blocksOf [1, 2, 4, 5, 7], Run b :=
+  blocksOf_runs _ (by unfold StrictInc; decide)
+example : gapCount [1, 2, 4, 5, 7] = 2 := by decide
+example : exTree.leafNums.Nodup := by decide
+example : yield exTree = [1, 2, 3, 4, 6, 7] := by decide
+example : blocks exTree = [[1, 2, 3, 4], [6, 7]] := by decide
+example : blocks exVP = [[1], [3, 4]] := by decide
+example : ∀ b ∈ blocks exTree, Run b := blocks_runs exTree (by decide)
+example : gapDegreeNode exTree = 1 ∧ gapDegreeNode exVP = 1 ∧ gapDegree exTree = 1 := by decide
+example : (preorder exTree).map gapDegreeNode = [1, 1, 0, 0, 0, 0, 0, 0, 0] := by decide
+/-- the maximum is attained at the VP (and at the root) -/
+example : exVP ∈ preorder exTree ∧ gapDegreeNode exVP = gapDegree exTree := by
+  refine ⟨?_, by decide⟩
+  unfold exTree
+  rw [TT.Lemmas.Nav.preorder_unfold]
+  refine List.mem_cons_of_mem _ (List.mem_flatMap.2 ⟨exVP, ?_, self_mem_preorder _⟩)
+  exact (mem_sortBy _ _ _).2 List.mem_cons_self
+example : ∀ i, i + 1 < (blocksOf [1, 2, 4, 5, 7]).length →
+    ∃ x y, ((blocksOf [1, 2, 4, 5, 7])[i]?).bind List.getLast? = some x ∧
+      ((blocksOf [1, 2, 4, 5, 7])[i+1]?).bind List.head? = some y ∧ x + 1 < y :=
+  (blocksOf_maximal _ (by unfold StrictInc; decide)).2
+example : exVP.leafNums ≠ [] := by decide
+example : ¬ (gapDegreeNode exVP = 0) ∧ ¬ ((blocks exVP).length = 1) := by decide
 
 end TT.Props.C16
